@@ -149,7 +149,7 @@ def gen_func(rng, prof, idx, nfuncs):
             stmts.append(['raise', 50 + idx])
     r = rng.choice(prof['rets'])
     if r == 'const':
-        r = {'const': enc_simple(rng.choice([0, 'r', [1, [2]], {'a': None}, 2.5, None, {0: 'x', 1: 'y'}, {1.0: 'x', True: 'y'}, {-0.0: 1, None: 2}, (1, {2: [3]})]))}
+        r = {'const': enc_simple(pool_value(rng) if rng.random() < 0.3 else rng.choice([0, 'r', [1, [2]], {'a': None}, 2.5, None, {0: 'x', 1: 'y'}, {1.0: 'x', True: 'y'}, {-0.0: 1, None: 2}, (1, {2: [3]})]))}
     if idx == 0:
         r = 'acc'
     return {'name': 'f%d' % idx, 'stmts': stmts, 'ret': r}
@@ -425,6 +425,9 @@ def scen_versions(rng):
         if rng.random() < 0.3:
             # a version followed by one that is almost - or in fact - JSON-equal to it
             a, b = rng.choice(VERSION_PAIRS)
+            if rng.random() < 0.4:
+                a = pool_value(rng)
+                b = twin(rng, a)
             if rng.random() < 0.5:
                 a, b = b, a
             n = rng.choice(names)
@@ -485,6 +488,74 @@ def scen_reads(rng, modes=None, samemeta=False):
 EPOCH_NS = 1790000000 * 10 ** 9      # a modification time of today, in nanoseconds
 
 
+
+# ---------------------------------------------------------------------------------------------
+# a value and a "twin": the same value with a few atoms / keys / container kinds exchanged for ones that are JSON-equal
+# to them, or that a careless comparison would take for equal (1, 1.0, True; 0, -0.0, False, None; keys 1, '1', 1.0 ...)
+_BIG = 2 ** 63
+ATOM_TWINS = [   # (atom, what to exchange it for) - a list, not a dict: 1, 1.0 and True are one dict key
+    (1, [1.0, True, '1', 2]), (1.0, [1, True, '1.0']), (True, [1, 1.0, 'true']), (0, [0.0, -0.0, False, None]), (False, [0, 0.0, -0.0, None]),
+    (None, [0, '', False, 'null']), ('', [None, 0, ' ']), ('a', ['b', 'A']), (2, [2.0, 3]), (-0.0, [0, 0.0, False]), ('0', [0, 'O']),
+    (_BIG, [float(_BIG), _BIG + 1]), (0.5, [0.25 + 0.25, 1]), ('é', ['e\u0301', 'e']),
+]
+KEY_TWINS = [(1, ['1', 1.0, True]), ('1', [1, 1.0]), (0, ['0', False, 0.0, -0.0]), (True, ['true', 1]), (None, ['null', '']), (1.0, ['1.0', 1, '1']),
+             (0.5, ['0.5']), ('a', ['b']), ('', [None]), ('0', [0]), ('b', ['a']), (_BIG, [str(_BIG)]), (False, ['false', 0]), (-0.0, ['-0.0', 0])]
+
+
+def _same_atom(a, v):
+    return type(a) is type(v) and repr(a) == repr(v)
+
+
+def _twins_of(table, v):
+    for a, tw in table:
+        if _same_atom(a, v):
+            return tw
+    return []
+
+
+POOL_ATOMS = [None, False, True, 0, 1, 2, 1.0, -0.0, 0.5, '', '0', 'a', 'é', _BIG]
+POOL_KEYS = ['', '0', 'a', 'b', 1, 0, True, False, None, 1.0, 0.5, -0.0, _BIG]
+
+
+def pool_value(rng, depth=0):
+    c = rng.random()
+    if depth > 2 or c < 0.35:
+        return rng.choice(POOL_ATOMS)
+    if c < 0.55:
+        return [pool_value(rng, depth + 1) for _ in range(rng.randint(0, 3))]
+    if c < 0.65:
+        return tuple(pool_value(rng, depth + 1) for _ in range(rng.randint(0, 2)))
+    d = {}
+    for _ in range(rng.randint(0, 3)):
+        d[rng.choice(POOL_KEYS)] = pool_value(rng, depth + 1)
+    return d
+
+
+def twin(rng, v, p=0.45):
+    """a value like `v` with some atoms, keys or container kinds exchanged"""
+    if isinstance(v, dict):
+        out = {}
+        for k, x in v.items():
+            cands = _twins_of(KEY_TWINS, k)
+            k2 = rng.choice(cands) if cands and rng.random() < p else k
+            if k2 in out:             # Python equality of keys (1 == 1.0 == True): never lose an entry to the exchange
+                k2 = k
+            out[k2] = twin(rng, x, p)
+        if rng.random() < 0.1:
+            out = dict(reversed(list(out.items())))       # key order never matters
+        return out
+    if isinstance(v, list):
+        r = [twin(rng, x, p) for x in v]
+        return tuple(r) if rng.random() < 0.25 else r
+    if isinstance(v, tuple):
+        r = [twin(rng, x, p) for x in v]
+        return r if rng.random() < 0.5 else tuple(r)
+    cands = _twins_of(ATOM_TWINS, v)
+    if cands and rng.random() < p:
+        return rng.choice(cands)
+    return v
+
+
 ARG_PAIRS = [  # (first build, second build, same JSON value?)
     # keys that collide once stringified: the LAST one wins (json.dumps writes both, json.loads keeps the last)
     ({8: 'a', '8': 'b'}, {'8': 'b'}, True), ({8: 'a', '8': 'b'}, {'8': 'a'}, False), ({'k': {None: 1, 'null': 2}}, {'k': {'null': 2}}, True),
@@ -508,14 +579,19 @@ def scen_identity(rng, index=None):
     k = rng.randrange(10 ** 6) if index is None else index
     p = rng.choice(PATHS2)
     n = len(ARG_PAIRS)
-    a, b, _same = ARG_PAIRS[(k // 5) % n]
-    sel = k % 5
+    if k % 2 == 0:
+        a, b, _same = ARG_PAIRS[(k // 10) % n]
+    else:
+        # a value of the shared pool and a twin of it: equal or almost equal - the model says which
+        a = pool_value(rng)
+        b = twin(rng, a)
+    sel = (k // 2) % 5
     if sel < 4:
         mode = sel // 2                       # 0: keyword, 1: positional
         use_bf = sel % 2 == 0
     else:
         mode = 2                              # positional 'opt', v against keyword opt=v
-        use_bf = (k // 5) % 2 == 0
+        use_bf = (k // 10) % 2 == 0
 
     def call(v, first=True):
         if mode == 2:
